@@ -108,6 +108,7 @@ def run_case(case, ctx):
             argv = [cur, "--to_" + tgt, out]
             sel = case["select"] if i == 0 else None
             want = expected
+            chosen = set()
             if sel:
                 spelled = [respell(n, sel["style"], r) for n in sel["names"]]
                 argv += ["--files"] + spelled
@@ -124,6 +125,18 @@ def run_case(case, ctx):
                 return
             path = os.path.join(d, out)
             if tgt == "bin":
+                fe = next((j for j, e in enumerate(expected) if len(e["data"]) == 0), None)
+                if cur.endswith("cas") and fe is not None:
+                    # known wrong behaviour modelled exactly: the tool sees only the files before the first empty one
+                    view = expected[:fe]
+                    out_ok = os.path.exists(path) and len(view) == 1 and open(path, "rb").read() == view[0]["data"]
+                    consistent = (len(view) == 1 and out_ok) or (len(view) > 1 and code != 0 and not os.path.exists(path)) or len(view) == 0
+                    if consistent:
+                        ctx.violation("convert", form, "COUNT:source-cassette-listing-stops-at-empty-file", wit, tr)
+                    else:
+                        ctx.violation("convert", form, "TO-BIN-WRONG-WITH-EMPTY-FILE-SOURCE", wit, tr)
+                    ctx.outcome("bad")
+                    return
                 if len(expected) > 1:
                     if code == 0 or os.path.exists(path):
                         ctx.violation("convert", form, "TO-BIN-DID-NOT-REFUSE-MULTIPLE-FILES", wit, tr)
@@ -132,9 +145,6 @@ def run_case(case, ctx):
                         ctx.outcome("ok")
                         ctx.cell("to_bin/refused-multiple")
                         ctx.nontriv(case["id"])
-                    return
-                if has_empty and case["src"] == "cas":
-                    ctx.outcome("skipped-empty-single")
                     return
                 if not os.path.exists(path) or open(path, "rb").read() != expected[0]["data"]:
                     ctx.violation("convert", form, "TO-BIN-DATA-DIFFERS", wit, tr)
@@ -149,8 +159,11 @@ def run_case(case, ctx):
                 ctx.outcome("bad")
                 return
             kind, got = hostcli.kind_of(open(path, "rb").read())
+            src_empty = next((j for j, e in enumerate(expected) if len(e["data"]) == 0), None)
+            seen_by_tool = expected if src_empty is None else expected[:src_empty]
+            model = [e for e in seen_by_tool if not sel or e["name"] in chosen]
             first_empty = next((j for j, e in enumerate(want) if len(e["data"]) == 0), None)
-            if cur.endswith("cas") and first_empty is not None and hostcli.same_list(got, want[:first_empty]) is None:
+            if cur.endswith("cas") and src_empty is not None and model != want and hostcli.same_list(got, model) is None:
                 # the known wrong behaviour, modelled exactly: the source cassette is listed only up to its first empty file
                 ctx.violation("convert", form, "COUNT:source-cassette-listing-stops-at-empty-file", dict(wit, got=[g["name"] for g in got], want=[w["name"] for w in want]), tr)
                 ctx.outcome("bad")
